@@ -1624,9 +1624,12 @@ namespace adept {
       return !(reinterpret_cast<std::size_t>(data_) & Packet<Type>::align_mask);
     }
 
+    // Return the number of unaligned elements before reaching the
+    // first element on an alignment boundary (the same convention as
+    // Array::alignment_offset_)
     template <int n>
     int alignment_offset_() const {
-      return (reinterpret_cast<std::size_t>(data_)/sizeof(Type)) % n; 
+      return (n - (reinterpret_cast<std::size_t>(data_)/sizeof(Type)) % n) % n;
     }
 
     Type value_with_len_(const Index& j, const Index& len) const {
